@@ -80,12 +80,13 @@ class RFn(Fn):
         Fn.__init__(self, "rodeo", rkind, known)
         self.sc = LScope()
         self.env = env          # facts about helpers / accessors established by run()
+        self.fieldmap = env.get("fieldmap") or {f: f for f in FIELDS}     # source field name -> map / hasher / strings / arena
 
     # ---- which field of self does an expression denote? ----
     def field_of(self, e):
         e = strip(e)
         if e[0] == "ref": e = strip(e[3])
-        if is_self_field(e) and e[3] in FIELDS: return e[3]
+        if is_self_field(e) and e[3] in self.fieldmap: return self.fieldmap[e[3]]
         if e[0] == "path" and len(names_of(e)) == 1:
             k = self.sc.get(names_of(e)[0])
             if k and k.startswith("f:"): return k[2:]
@@ -181,7 +182,7 @@ class RFn(Fn):
         if rk == "opt_key":
             if e0[0] == "mcall" and e0[3] == "map" and len(e0[4]) == 1 and e0[4][0][0] == "closure":
                 c = e0[4][0]
-                okc = len(c[2]) == 1 and isinstance(c[2][0], tuple) and len(c[2][0]) == 2 and c[2][0][1] == "_" and \
+                okc = len(c[2]) == 1 and isinstance(c[2][0], tuple) and len(c[2][0]) == 2 and c[2][0][1] in ("_", ()) and \
                     ((c[2][0][0].startswith("&") and is_path(strip(c[3]), c[2][0][0][1:])) or
                      (strip(c[3])[0] == "un" and strip(c[3])[2] == "*" and is_path(strip(strip(c[3])[3]), c[2][0][0])))
                 h = self.raw_lookup(e0[2])
